@@ -175,7 +175,7 @@ func MaxDepth(t *stree.Tree[Elem]) int {
 // it). beta is fixed per search.
 func (s *Inst) Key() string {
 	sh, _ := Shape(s.T)
-	k := fmt.Sprintf("%s m%d", sh, hiddenMax(s.T))
+	k := fmt.Sprintf("%s m%d %s", sh, hiddenMax(s.T), mc.Fingerprint(s.T))
 	if s.emptied {
 		k += " E"
 	}
